@@ -214,10 +214,12 @@ CHECKS["C01"] = dict(
          "updates as well: the_connected_client_stays_in_sync_on_both_connections - System/Reorder.v proves that taking an operation's ordinary "
          "messages first and its BLOB updates afterwards gives the same view as the order of publication, because a message about one property "
          "acts on that entry alone and as a function of that entry alone, order_across_the_two_connections_does_not_matter; condition: within one "
-         "operation no ordinary message about a property follows a BLOB update about it, decidable and true of every operation of the library). "
+         "operation no ordinary message about a property follows a BLOB update about it - PROVED of every operation of the property's list on "
+         "every device definition, every_operation_is_orderly, System/Orderly.v). "
          "The network client's handshake is proved in the system model as well (the_handshake_connects_and_syncs: policies control Never / BLOB "
          "connection Only, nothing in flight, mirror in sync) and so is every later history of operations "
-         "(connected_client_history_on_both_connections). "
+         "(every_typed_history_keeps_the_connected_client_in_sync: any history of typed operations, BLOB publications included, nothing assumed "
+         "about the order of messages). "
          "PARTIAL: the system model settles after each operation; operations overlapping in time with the delivery of earlier ones, and deployments "
          "with several drivers or clients, "
          "are composed in the system model and VALIDATED by running the real stack (every device state and every client view after every operation, "
